@@ -174,7 +174,19 @@ def specs(draw, kind, rot_classes=None, size_lo=1e-2, size_hi=1e2,
             V = (np.array([[1, 1, 1], [1, -1, -1], [-1, 1, -1], [-1, -1, 1.0]])
                  * draw(sz)).tolist()
             vc["cls"] = "tetra"
-        spec["vertices"] = hull_vertices_only(V)
+        V = hull_vertices_only(V)
+        # optionally one strictly interior vertex that no triangle references
+        # (point clouds passed through make_convex_mesh keep such vertices),
+        # close to a face and possibly at index 0
+        where = draw(st.sampled_from(["none", "first", "last"]))
+        if where != "none":
+            Va = np.array(V, dtype=float)
+            tri = mesh_triangles(Va)
+            t = tri[draw(st.integers(0, len(tri) - 1))]
+            inner = 0.9 * Va[t].mean(axis=0) + 0.1 * Va.mean(axis=0)
+            V = ([inner.tolist()] + V) if where == "first" else (V + [inner.tolist()])
+            vc["cls"] += "+interior-" + where
+        spec["vertices"] = V
         spec["vcls"] = vc["cls"]
     elif kind == "hull":
         vc = draw(vertex_clouds(size_lo, size_hi, degenerate=degenerate_hulls,
@@ -278,9 +290,6 @@ def build(spec, with_margin=True):
         elif k == "mesh":
             V = np.ascontiguousarray(np.array(spec["vertices"], dtype=float))
             tri = mesh_triangles(V)
-            if len(np.unique(tri)) != len(V):   # e.g. after a scale transform
-                V = np.ascontiguousarray(np.array(hull_vertices_only(V)))
-                tri = mesh_triangles(V)
             obj = C.MeshGraph(T, V, tri)
         else:
             raise ValueError(k)
